@@ -104,6 +104,93 @@ func c17WorkerStartsByDraining(c *Ctx) {
 	}
 }
 
+// c17Round3: rules added after the third seeded round.
+func c17Round3(c *Ctx) {
+	p := c.P
+	// (a) the regions a reprovide claimed all reach provideRegions (which releases the claim of an
+	// empty region): between the claim and the hand-over the list is only ever passed through
+	// AssignKeysToRegions
+	for _, fn := range []string{spFn + "batchReprovide", spFn + "batchProvide"} {
+		f := c.Fn(fn)
+		info := f.Info()
+		var regions eng.Object
+		for _, call := range f.Calls(spFn + "provideRegions") {
+			if len(call.Args) >= 1 {
+				regions = eng.ObjOf(info, call.Args[0])
+			}
+		}
+		if !c.Check(K(f.Name, "hands regions over"), f.Pos(), regions != nil, "the batch hands its regions to provideRegions", "no provideRegions(regions, ...) call") {
+			continue
+		}
+		for _, as := range assignsTo(f, func(l ast.Expr) bool { return eng.IsObj(info, l, regions) }) {
+			rhs := rhsFor(as, 0)
+			for i, l := range as.Lhs {
+				if eng.IsObj(info, l, regions) {
+					rhs = rhsFor(as, i)
+				}
+			}
+			_, ok := eng.IsCallTo(info, rhs, spFn+"exploreSwarm", spFn+"claimRegionReprovide", "dht/provider/internal/keyspace.AssignKeysToRegions")
+			c.Check(K(f.Name, "regions = "+short(rhs)), as.Pos(), ok, "the region list comes from the exploration, is narrowed by the claim, and gets its keys assigned — nothing else removes a region before provideRegions (a claimed region that never reaches it is never released)", "regions reassigned from "+short(rhs))
+		}
+	}
+	// (b) every start, forced or not, cancels a queued stop of the same key
+	{
+		f := c.Fn("dht/provider/buffered.getOperations")
+		cf := f.CFG()
+		info := f.Info()
+		dels, _ := cf.CallLocs("builtin.delete")
+		isConstNamed := func(e ast.Expr, name string) bool {
+			co := eng.ConstObj(info, e)
+			return co != nil && co.Name() == name
+		}
+		for _, name := range []string{"startProvidingOp", "forceStartProvidingOp"} {
+			n := 0
+			for _, b := range cf.G.Blocks {
+				if !b.Live || cf.Cond(b) == nil {
+					continue
+				}
+				for si := 0; si < 2; si++ {
+					hit := false
+					for _, ft := range cf.EdgeFacts(b, si) {
+						if x, y, eq, ok := ft.EqFact(); ok && eq && (isConstNamed(x, name) || isConstNamed(y, name)) {
+							hit = true
+						}
+					}
+					if !hit {
+						continue
+					}
+					n++
+					from := eng.Loc{B: b.Succs[si], I: -2}
+					heads := loopHeads(cf, p, b.Nodes[len(b.Nodes)-1])
+					r, w := cf.Reach(from, eng.LocSet(append(heads, cf.Exits(false)...)...), eng.ReachOpt{CutLoc: eng.LocSet(dels...)})
+					c.CheckW(K(f.Name, name+" cancels a queued stop"), b.Nodes[len(b.Nodes)-1].Pos(), !r, "a StartProviding (forced or not) that follows a StopProviding of the same key in one batch removes the stop, so the key ends up provided as it would one by one", "the iteration for "+name+" can finish without delete(stopProv, key)", cf.DescribePath(w))
+				}
+			}
+			c.Check(K(f.Name, name+" tested"), f.Pos(), n >= 1, "the dispatch has an edge on which the operation is "+name, "no such edge")
+		}
+	}
+	// (c) ExtendBinaryPrefix(p, n) is only asked to extend: len(p) < n (it answers nil otherwise, and a
+	// gap already at or beyond the target length would vanish from the schedule)
+	for _, s := range p.AllCalls("dht/provider/internal/keyspace.ExtendBinaryPrefix") {
+		info := s.F.Info()
+		cf := s.F.CFG()
+		call := s.Call()
+		g, _ := cf.Guarded(cf.LocOf(call), func(ft eng.Fact) bool {
+			x, op, y, ok := ft.Rel()
+			if !ok {
+				return false
+			}
+			la := eng.LenArg(info, x)
+			if la != nil && eng.SameExpr(info, la, call.Args[0]) && eng.SameExpr(info, y, call.Args[1]) && (op == eng.LSS || op == eng.LEQ) {
+				return true
+			}
+			la = eng.LenArg(info, y)
+			return la != nil && eng.SameExpr(info, la, call.Args[0]) && eng.SameExpr(info, x, call.Args[1]) && (op == eng.GTR || op == eng.GEQ)
+		})
+		c.Check(K(s.F.Name, "extends only shorter prefixes"), call.Pos(), g, "ExtendBinaryPrefix is called only behind len(prefix) < n (longer prefixes are kept as they are)", "call not guarded by a length comparison of its two arguments")
+	}
+}
+
 func runC17(c *Ctx) {
 	p := c.P
 	// R1 failed work is re-queued
@@ -405,6 +492,9 @@ func runC17(c *Ctx) {
 	}
 
 	// R4 buffered coalescing
+	c.Rule("R7")
+	c17Round3(c)
+
 	c.Rule("R4")
 	c17WorkerStartsByDraining(c)
 	{
